@@ -37,10 +37,16 @@ def run(ctx):
     ctx.attempt(r1, ctx, F, bs)
     from rules import C02
     # R2: reuse the winner tuple rule under this id
-    sub = _Alias(ctx, 'C02.R4', 'C06.R2', only='apply:BothChanged:winner-tuple')
-    C02.side_rules(sub, bs, bs.copy_sites(), direction=True)
+    if bs.batched:
+        ctx.undecided('C06.R2', 'apply stages its deliveries into a container and publishes them in a loop over it: which versions end up where is not decided by the per-call rules')
+    else:
+        sub = _Alias(ctx, 'C02.R4', 'C06.R2', only='apply:BothChanged:winner-tuple')
+        C02.side_rules(sub, bs, bs.copy_sites(), direction=True)
     ctx.attempt(r3, ctx, F, bs)
-    ctx.attempt(r4, ctx, F, bs)
+    if bs.batched:
+        ctx.undecided('C06.R4', 'apply publishes a batch of staged deliveries: what the record says about them is not decided by the per-call rules')
+    else:
+        ctx.attempt(r4, ctx, F, bs)
     ctx.attempt(r5, ctx, F, bs)
     ctx.attempt(base_does_not_override, ctx, F, bs, 'C06.R5')
     sub = _Alias(ctx, 'C02.R5', 'C06.R6')
